@@ -3,6 +3,9 @@ from hypothesis import strategies as st
 
 from . import h_slot as hs
 
+# one lattice tick: a minute (default), a third / quarter of a second (sub-second lags), 25 h (lags over a day)
+TICKS = st.sampled_from([None, None, None, 333333, 250000, 90000000000])
+
 ALL_KINDS = ["scale", "cb", "next", "prev", "lin", "step", "avg", "sum", "dfix", "dpull", "dpush"]
 
 
@@ -172,6 +175,7 @@ def dag_spec(draw, max_models=5, kinds=None, with_thru=True, offsets=True, max_c
         "order": list(order),
         "end": end if end is not None else draw(st.integers(5, 40)),
         "excluded": excl,
+        "tick_us": draw(TICKS),
     }
 
 
@@ -186,11 +190,13 @@ def ring_spec(draw, modes=None, chords=True, thru=True, max_n=5):
     steps = {m: draw(st.lists(st.integers(1, 5), min_size=1, max_size=2)) for m in names}
     need = sum(max(s) for s in steps.values())
     mode = draw(st.sampled_from(modes))
+    # occasionally a delay far beyond what is needed: the source output then retains dozens of publications
+    slack = st.sampled_from([0, 1, 2, 3, 0, 1, 2, 3, 0, 1, 2, 3, 77, 118, 200, 333])
     total = {
         "none": 0,
         "dpush": 0,
-        "suff": need + draw(st.integers(0, 3)),
-        "suff_split": need + draw(st.integers(0, 3)),
+        "suff": need + draw(slack),
+        "suff_split": need + draw(slack),
         "suff_multi": need + draw(st.integers(0, 3)),
         "partial": draw(st.integers(1, max(1, need - 1))),
     }[mode]
@@ -267,11 +273,13 @@ def ring_spec(draw, modes=None, chords=True, thru=True, max_n=5):
         "comps": comps,
         "links": [list(l) for l in links],
         "order": list(order),
-        "end": draw(st.integers(5, 30)),
+        # with a huge delay the requests stay clamped at the start until the run has passed the delay
+        "end": draw(st.integers(5, 30)) if total < need + 10 else total + draw(st.integers(5, 40)),
         "mode": mode,
         "need": need,
         "total": total,
         "ring": n,
         "extra": extra,
         "excluded": [],
+        "tick_us": draw(TICKS),
     }
